@@ -9,3 +9,30 @@ ERR_RESULT = "ledger.hsm2dongle:HSM2DongleErrorResult"
 ERR_TIMEOUT = "ledger.hsm2dongle:HSM2DongleTimeoutError"
 ERR_COMM = "ledger.hsm2dongle:HSM2DongleCommError"
 ERR_DONGLE = "ledger.hsm2dongle:HSM2DongleError"
+
+
+# ---- exceptional behaviour shared by every dongle method that lets _send_command's exceptions through
+def x_err(exc, g): return classify(g) == K_ERR and exc.args[0] == g.last_sw
+def x_timeout(g): return classify(g) == K_TIMEOUT
+def x_comm(g): return classify(g) == K_COMM
+def x_other(g): return classify(g) == K_OTHER
+
+
+def PROPAGATE(*extra, skip=()):
+    d = {
+        ERR_RESULT: Exc(args=[INT_], post=[x_err] + list(extra)),
+        ERR_TIMEOUT: Exc(args=[STR_], post=[x_timeout] + list(extra)),
+        ERR_COMM: Exc(args=[STR_], post=[x_comm] + list(extra)),
+        ERR_DONGLE: Exc(args=[STR_], post=[x_other] + list(extra)),
+    }
+    for k in skip:
+        del d[k]
+    return d
+
+
+def apdu_of(command, data):
+    return bytes([0x80, command]) + data
+
+
+def last_apdu(g):
+    return g.log[len(g.log) - 1]
